@@ -1,5 +1,5 @@
 # replay of a bounded stand-in violation: re-run native/c01_backends.py
 import sys
-print('fock lossChannel(T=0.5, cutoff=2): the Kraus operators are not complete, sum E^+E has diagonal [1.0, 0.5] (trace lost without any truncation)')
+print('MeasureHeterodyne(0.2, -0.3) | q[0] of 2 on gaussian: Gaussian state violates the uncertainty relation (min eigenvalue of V + i hbar/2 Omega = -0.000403)')
 print('REPLAY-VIOLATION')
 sys.exit(1)
